@@ -1,7 +1,12 @@
 (* Merge.v — C08/C09: model of the merge handler (handler.go: MergeHandler,
    mergeHandlerSession and its three state types), the specification
    predicates and the boolean oracles.  Definitions only; proofs are in
-   MergeProofs.v.
+   MergeProofs.v (C08, the state invariant), MergeAggProofs.v (C09) and
+   MergeOracleProofs.v (the oracles).
+
+   The OK and COUNT states are the ones of the code AFTER the repair of
+   finding K1: per id a count of pending submissions and one FIFO queue of
+   replies per child (MergeOld.v keeps a copy of the former bookkeeping).
 
    One [merge_step] is exactly one critical section of the code: the
    section of [handleRecv*Msg] / [handleSend*Msg] that runs between taking a
@@ -27,8 +32,10 @@ Definition h_eose_incomplete (all : bool) : bool := negb all.               (* !
 Definition h_event_unsendable (sendable : bool) : bool := negb sendable.    (* !s.IsSendableEventMsg(..) *)
 Definition h_ok_not_ready (ready : bool) : bool := negb ready.              (* !s.Ready(id) *)
 Definition h_count_not_ready (ready : bool) : bool := negb ready.           (* !s.Ready(sub, idx) *)
-Definition h_ok_has_slot (len : Z) : bool := len >? 0.                      (* len(stat.s[eventID]) > 0 *)
-Definition h_ok_setmsg_absent (len : Z) : bool := len =? 0.                 (* len(msgs) == 0 *)
+Definition h_ok_no_slot (len : Z) : bool := len =? 0.                       (* len(stat.s[eventID]) == 0 *)
+Definition h_ok_setmsg_drop (len qlen pending : Z) : bool :=                (* len(msgs) == 0 || len(msgs[chIdx]) >= stat.pending[id] *)
+  (len =? 0) || (qlen >=? pending).
+Definition h_ok_clear_done (pending : Z) : bool := pending <=? 0.           (* stat.pending[eventID] <= 0 *)
 Definition h_ok_ready_absent (len : Z) : bool := len =? 0.
 Definition h_ok_msg_absent (len : Z) : bool := len =? 0.
 Definition h_ok_is_accepted (accepted : bool) : bool := accepted.           (* msg.Accepted *)
@@ -44,7 +51,10 @@ Definition h_ev_ts_decreased (res : Z) : bool := res >? 0.                  (* r
 Definition h_ev_seen_reject (seen_nil seen_has : bool) : bool := seen_nil || seen_has.
 Definition h_ev_done (done : bool) : bool := done.
 Definition h_ev_nomatch (matched : bool) : bool := negb matched.
-Definition h_cnt_set_absent (len : Z) : bool := len =? 0.
+Definition h_cnt_no_slot (len : Z) : bool := len =? 0.                      (* len(stat.counts[subID]) == 0 *)
+Definition h_cnt_set_drop (len qlen pending : Z) : bool :=
+  (len =? 0) || (qlen >=? pending).
+Definition h_cnt_clear_done (pending : Z) : bool := pending <=? 0.
 Definition h_cnt_ready_absent (len : Z) : bool := len =? 0.
 
 (* ------------------------------------------------------------------ *)
@@ -217,31 +227,71 @@ Definition rs_is_sendable (r : rstate) (i : nat) (sub : str) (e : event) : optio
   end.
 
 (* ------------------------------------------------------------------ *)
+(** * Reply bookkeeping shared by the OK and the COUNT state
+
+    Per id the code keeps [pending], the number of submissions that still
+    await their merged reply, and one FIFO queue of replies per child. *)
+
+(** [m[k]] for an int-valued map: a missing key reads as 0 *)
+Definition zget (k : str) (m : list (str * Z)) : Z :=
+  match assoc k m with Some v => v | None => 0 end.
+
+(** [q[0]]; [None] = index out of range *)
+Definition hd_opt {A} (q : list A) : option A := match q with [] => None | x :: _ => Some x end.
+
+Definition is_nil {A} (q : list A) : bool := match q with [] => true | _ => false end.
+
+(** [len(msgs[chIdx])] as the second operand of [len(msgs) == 0 || ...]: it is
+    evaluated only when [msgs] is non-empty; [None] = index out of range *)
+Definition idx_guarded {A} (l : list (list A)) (i : nat) : option (list A) :=
+  match l with
+  | [] => Some []
+  | _ :: _ => nth_error l i
+  end.
+
+(** [for i := range msgs { msgs[i] = msgs[i][1:] }]; [None] = slice bounds out of range *)
+Fixpoint tails {A} (l : list (list A)) : option (list (list A)) :=
+  match l with
+  | [] => Some []
+  | [] :: _ => None
+  | (_ :: q) :: r => match tails r with Some r' => Some (q :: r') | None => None end
+  end.
+
+(* ------------------------------------------------------------------ *)
 (** * mergeHandlerSessionOKState *)
 
-Record ostate := mkOS { os_size : nat; os_s : list (str * list (option okm)) }.
+Record ostate := mkOS {
+  os_size : nat;
+  os_pending : list (str * Z);              (* map[eventID]int *)
+  os_s : list (str * list (list okm))       (* map[eventID][chIdx][]msg *)
+}.
 
-(** TrySetEventID: does nothing when the id already has a slot vector *)
+(** TrySetEventID *)
 Definition os_try_set (o : ostate) (id : str) : ostate :=
-  if h_ok_has_slot (zlen (vlist (assoc id (os_s o)))) then o
-  else mkOS (os_size o) (m_set id (repeat None (os_size o)) (os_s o)).
+  let s1 := if h_ok_no_slot (zlen (vlist (assoc id (os_s o))))
+            then m_set id (repeat [] (os_size o)) (os_s o) else os_s o in
+  mkOS (os_size o) (m_set id (zget id (os_pending o) + 1) (os_pending o)) s1.
 
-(** SetMsg *)
+(** SetMsg; [None] = index out of range *)
 Definition os_set_msg (o : ostate) (i : nat) (m : okm) : option ostate :=
   let msgs := vlist (assoc (ok_id m) (os_s o)) in
-  if h_ok_setmsg_absent (zlen msgs) then Some o else
-  match upd_nth i (Some m) msgs with
+  match idx_guarded msgs i with
   | None => None
-  | Some l' => Some (mkOS (os_size o) (m_set (ok_id m) l' (os_s o)))
+  | Some q =>
+      if h_ok_setmsg_drop (zlen msgs) (zlen q) (zget (ok_id m) (os_pending o)) then Some o else
+      match upd_nth i (q ++ [m]) msgs with
+      | None => None
+      | Some l' => Some (mkOS (os_size o) (os_pending o) (m_set (ok_id m) l' (os_s o)))
+      end
   end.
 
 (** Ready *)
 Definition os_ready (o : ostate) (id : str) : bool :=
   let msgs := vlist (assoc id (os_s o)) in
-  if h_ok_ready_absent (zlen msgs) then false else negb (existsb isNone msgs).
+  if h_ok_ready_absent (zlen msgs) then false else negb (existsb is_nil msgs).
 
-(** the loop of Msg: accepting and rejecting replies, each in child order;
-    [None] = nil dereference *)
+(** the loop of Msg over the heads of the queues: accepting and rejecting
+    replies, each in child order; [None] = [q[0]] on an empty queue *)
 Fixpoint ok_partition (l : list (option okm)) : option (list okm * list okm) :=
   match l with
   | [] => Some ([], [])
@@ -265,36 +315,55 @@ Definition join_oks (l : list okm) : option okm :=
 Definition os_msg (o : ostate) (id : str) : option okm :=
   let msgs := vlist (assoc id (os_s o)) in
   if h_ok_msg_absent (zlen msgs) then None else
-  match ok_partition msgs with
+  match ok_partition (List.map hd_opt msgs) with
   | None => None
   | Some (oks, ngs) => if h_ok_any_rejected (zlen ngs) then join_oks ngs else join_oks oks
   end.
 
-(** ClearEventID *)
-Definition os_clear (o : ostate) (id : str) : ostate := mkOS (os_size o) (m_del id (os_s o)).
+(** ClearEventID: drops the heads, one submission fewer; [None] = panic *)
+Definition os_clear (o : ostate) (id : str) : option ostate :=
+  match tails (vlist (assoc id (os_s o))) with
+  | None => None
+  | Some l' =>
+      let s1 := match assoc id (os_s o) with Some _ => m_set id l' (os_s o) | None => os_s o end in
+      let p := zget id (os_pending o) - 1 in
+      if h_ok_clear_done p
+      then Some (mkOS (os_size o) (m_del id (os_pending o)) (m_del id s1))
+      else Some (mkOS (os_size o) (m_set id p (os_pending o)) s1)
+  end.
 
 (* ------------------------------------------------------------------ *)
 (** * mergeHandlerSessionCountState *)
 
-Record cstate := mkCS { cs_size : nat; cs_counts : list (str * list (option cntm)) }.
+Record cstate := mkCS {
+  cs_size : nat;
+  cs_pending : list (str * Z);
+  cs_counts : list (str * list (list cntm))
+}.
 
-(** SetSubID: unconditional *)
+(** SetSubID *)
 Definition cs_set_sub (c : cstate) (sub : str) : cstate :=
-  mkCS (cs_size c) (m_set sub (repeat None (cs_size c)) (cs_counts c)).
+  let s1 := if h_cnt_no_slot (zlen (vlist (assoc sub (cs_counts c))))
+            then m_set sub (repeat [] (cs_size c)) (cs_counts c) else cs_counts c in
+  mkCS (cs_size c) (m_set sub (zget sub (cs_pending c) + 1) (cs_pending c)) s1.
 
 (** SetCountMsg *)
 Definition cs_set_msg (c : cstate) (i : nat) (m : cntm) : option cstate :=
   let counts := vlist (assoc (c_sub m) (cs_counts c)) in
-  if h_cnt_set_absent (zlen counts) then Some c else
-  match upd_nth i (Some m) counts with
+  match idx_guarded counts i with
   | None => None
-  | Some l' => Some (mkCS (cs_size c) (m_set (c_sub m) l' (cs_counts c)))
+  | Some q =>
+      if h_cnt_set_drop (zlen counts) (zlen q) (zget (c_sub m) (cs_pending c)) then Some c else
+      match upd_nth i (q ++ [m]) counts with
+      | None => None
+      | Some l' => Some (mkCS (cs_size c) (cs_pending c) (m_set (c_sub m) l' (cs_counts c)))
+      end
   end.
 
 (** Ready *)
 Definition cs_ready (c : cstate) (sub : str) : bool :=
   let counts := vlist (assoc sub (cs_counts c)) in
-  if h_cnt_ready_absent (zlen counts) then false else negb (existsb isNone counts).
+  if h_cnt_ready_absent (zlen counts) then false else negb (existsb is_nil counts).
 
 Fixpoint all_some {A} (l : list (option A)) : option (list A) :=
   match l with
@@ -311,16 +380,26 @@ Fixpoint first_max (m : cntm) (l : list cntm) : cntm :=
   | x :: r => if c_count x >? c_count m then first_max x r else first_max m r
   end.
 
-(** Msg; [None] = panic (empty slice, nil element) *)
+(** Msg: the heads of the queues, then MaxFunc; [None] = panic ([q[0]] on an
+    empty queue, MaxFunc on an empty slice) *)
 Definition cs_msg (c : cstate) (sub : str) : option cntm :=
-  match all_some (vlist (assoc sub (cs_counts c))) with
+  match all_some (List.map hd_opt (vlist (assoc sub (cs_counts c)))) with
   | None => None
   | Some [] => None
   | Some (m :: r) => Some (first_max m r)
   end.
 
 (** ClearSubID *)
-Definition cs_clear (c : cstate) (sub : str) : cstate := mkCS (cs_size c) (m_del sub (cs_counts c)).
+Definition cs_clear (c : cstate) (sub : str) : option cstate :=
+  match tails (vlist (assoc sub (cs_counts c))) with
+  | None => None
+  | Some l' =>
+      let s1 := match assoc sub (cs_counts c) with Some _ => m_set sub l' (cs_counts c) | None => cs_counts c end in
+      let p := zget sub (cs_pending c) - 1 in
+      if h_cnt_clear_done p
+      then Some (mkCS (cs_size c) (m_del sub (cs_pending c)) (m_del sub s1))
+      else Some (mkCS (cs_size c) (m_set sub p (cs_pending c)) s1)
+  end.
 
 (* ------------------------------------------------------------------ *)
 (** * The session *)
@@ -331,7 +410,7 @@ Definition cs_clear (c : cstate) (sub : str) : cstate := mkCS (cs_size c) (m_del
 Record state := mkSt { st_rs : rstate; st_os : ostate; st_cs : cstate; st_dead : bool }.
 
 Definition init (n : nat) : state :=
-  mkSt (mkRS n [] [] [] []) (mkOS n []) (mkCS n []) false.
+  mkSt (mkRS n [] [] [] []) (mkOS n [] []) (mkCS n [] []) false.
 
 (** NewMergeHandler panics for fewer than two handlers *)
 Definition new_session (n : nat) : option state :=
@@ -369,7 +448,11 @@ Definition send_ok (s : state) (i : nat) (m : okm) : state * option smsg :=
       if h_ok_not_ready (os_ready o1 (ok_id m)) then (with_os s o1, None) else
       match os_msg o1 (ok_id m) with
       | None => (kill s, None)
-      | Some ret => (with_os s (os_clear o1 (ok_id m)), Some (SOk ret))
+      | Some ret =>
+          match os_clear o1 (ok_id m) with
+          | None => (kill s, None)
+          | Some o2 => (with_os s o2, Some (SOk ret))
+          end
       end
   end.
 
@@ -381,7 +464,11 @@ Definition send_count (s : state) (i : nat) (m : cntm) : state * option smsg :=
       if h_count_not_ready (cs_ready c1 (c_sub m)) then (with_cs s c1, None) else
       match cs_msg c1 (c_sub m) with
       | None => (kill s, None)
-      | Some ret => (with_cs s (cs_clear c1 (c_sub m)), Some (SCount ret))
+      | Some ret =>
+          match cs_clear c1 (c_sub m) with
+          | None => (kill s, None)
+          | Some c2 => (with_cs s c2, Some (SCount ret))
+          end
       end
   end.
 
@@ -481,30 +568,36 @@ Definition eosed (sub : str) (w : list input) (i : nat) : bool := existsb (is_eo
 Definition all_eosed (n : nat) (sub : str) (w : list input) : bool :=
   forallb (eosed sub w) (seq 0 n).
 
-(** the latest OK reply of child [i] for event id [id] in [w] *)
-Fixpoint latest_ok (id : str) (i : nat) (w : list input) (acc : option okm) : option okm :=
-  match w with
-  | [] => acc
-  | Child j (SOk m) :: w' =>
-      if Nat.eqb j i && str_eqb (ok_id m) id then latest_ok id i w' (Some m) else latest_ok id i w' acc
-  | _ :: w' => latest_ok id i w' acc
-  end.
-Definition ok_replies (n : nat) (id : str) (w : list input) : list (option okm) :=
-  List.map (fun i => latest_ok id i w None) (seq 0 n).
-Definition all_replied (n : nat) (id : str) (w : list input) : bool :=
-  negb (existsb isNone (ok_replies n id w)).
+(** a child's reply to an EVENT / to a COUNT *)
+Definition ok_reply (x : input) : option (nat * okm) :=
+  match x with Child i (SOk m) => Some (i, m) | _ => None end.
+Definition cnt_reply (x : input) : option (nat * cntm) :=
+  match x with Child i (SCount m) => Some (i, m) | _ => None end.
 
-Fixpoint latest_cnt (sub : str) (i : nat) (w : list input) (acc : option cntm) : option cntm :=
-  match w with
-  | [] => acc
-  | Child j (SCount m) :: w' =>
-      if Nat.eqb j i && str_eqb (c_sub m) sub then latest_cnt sub i w' (Some m) else latest_cnt sub i w' acc
-  | _ :: w' => latest_cnt sub i w' acc
+(** the replies of child [i] under key [k] in [t], oldest first *)
+Fixpoint replies_of {A} (key : A -> str) (reply_of : input -> option (nat * A))
+  (k : str) (i : nat) (t : list input) : list A :=
+  match t with
+  | [] => []
+  | x :: t' =>
+      match reply_of x with
+      | Some (j, a) =>
+          if Nat.eqb j i && str_eqb (key a) k
+          then a :: replies_of key reply_of k i t' else replies_of key reply_of k i t'
+      | None => replies_of key reply_of k i t'
+      end
   end.
-Definition cnt_replies (n : nat) (sub : str) (w : list input) : list (option cntm) :=
-  List.map (fun i => latest_cnt sub i w None) (seq 0 n).
-Definition all_counted (n : nat) (sub : str) (w : list input) : bool :=
-  negb (existsb isNone (cnt_replies n sub w)).
+
+(** the [j]-th reply of every child, in child order *)
+Definition column {A} (key : A -> str) (reply_of : input -> option (nat * A))
+  (n : nat) (k : str) (j : nat) (t : list input) : list (option A) :=
+  List.map (fun i => nth_error (replies_of key reply_of k i t) j) (seq 0 n).
+
+(** the OK replies of child [i] for event id [id] / its COUNT replies for [sub] *)
+Definition ok_replies_of : str -> nat -> list input -> list okm := replies_of ok_id ok_reply.
+Definition cnt_replies_of : str -> nat -> list input -> list cntm := replies_of c_sub cnt_reply.
+Definition ok_column : nat -> str -> nat -> list input -> list (option okm) := column ok_id ok_reply.
+Definition cnt_column : nat -> str -> nat -> list input -> list (option cntm) := column c_sub cnt_reply.
 
 (** what the gate in front of the handler guarantees about a trace: child
     indices are in range, events carry no empty tag, filters are ones the
@@ -538,12 +631,6 @@ Definition is_count_out (sub : str) (o : option smsg) : bool :=
     each of the steps [w] that follow the REQ *)
 Definition win_outs (s : state) (sub : str) (fs : list rfilter) (w : list input) : list (option smsg) :=
   outs (fst (merge_step s (CReq sub fs))) w.
-
-(** ... and the windows opened by an EVENT / a COUNT *)
-Definition evt_outs (s : state) (id : str) (w : list input) : list (option smsg) :=
-  outs (fst (merge_step s (CEvent id))) w.
-Definition cnt_outs (s : state) (sub : str) (w : list input) : list (option smsg) :=
-  outs (fst (merge_step s (CCount sub))) w.
 
 (** created_at never increases along a list of events *)
 Fixpoint ts_noninc (l : list event) : Prop :=
@@ -605,29 +692,40 @@ Fixpoint wf_scan (n : nat) (t : list input) (pend : list (str * list nat)) : boo
 Definition wf_trace (n : nat) (t : list input) : Prop := trace_ok n t /\ wf_scan n t [] = true.
 
 (* ------------------------------------------------------------------ *)
-(** * Guard of C09: no two requests with one id in flight *)
+(** * The quantifier of C09: every child answers each request once, and
+      requests carrying the same id in the order of their submission.
 
-Definition no_cevent (id : str) (w : list input) : Prop := forall x, In x w -> is_cevent_of id x = false.
-Definition no_ccount (sub : str) (w : list input) : Prop := forall x, In x w -> is_ccount_of sub x = false.
+    Read off a history: whenever child [i] sends an OK for event id [id], it
+    has so far sent fewer OKs for [id] than EVENTs with that id were
+    submitted — the reply answers a submission the child has not answered yet,
+    and because the child answers the submissions of one id in order, its
+    [j]-th OK for [id] is its answer to the [j]-th EVENT [id].  Likewise for
+    COUNT.  (That every child does answer is a hypothesis of the theorems that
+    need it, stated as "the child's replies are as many as the requests".) *)
 
-(** after the history [pre] no EVENT with id [id] is in flight: every earlier
-    submission of that id has been answered by every child *)
-Inductive idle_ev (n : nat) (id : str) : list input -> Prop :=
-| idle_ev_none pre : no_cevent id pre -> idle_ev n id pre
-| idle_ev_done pre w :
-    idle_ev n id pre -> no_cevent id w -> all_replied n id w = true ->
-    idle_ev n id (pre ++ CEvent id :: w).
+Definition answers_in_order_ev (t : list input) : Prop :=
+  forall pre i m rest, t = pre ++ Child i (SOk m) :: rest ->
+    (length (ok_replies_of (ok_id m) i pre) < count_occ_b (is_cevent_of (ok_id m)) pre)%nat.
 
-Inductive idle_cnt (n : nat) (sub : str) : list input -> Prop :=
-| idle_cnt_none pre : no_ccount sub pre -> idle_cnt n sub pre
-| idle_cnt_done pre w :
-    idle_cnt n sub pre -> no_ccount sub w -> all_counted n sub w = true ->
-    idle_cnt n sub (pre ++ CCount sub :: w).
+Definition answers_in_order_cnt (t : list input) : Prop :=
+  forall pre i m rest, t = pre ++ Child i (SCount m) :: rest ->
+    (length (cnt_replies_of (c_sub m) i pre) < count_occ_b (is_ccount_of (c_sub m)) pre)%nat.
 
-(** a request is only ever submitted while no request with the same id is in flight *)
-Definition no_overlap (n : nat) (t : list input) : Prop :=
-  and (forall pre id rest, t = pre ++ CEvent id :: rest -> idle_ev n id pre)
-      (forall pre sub rest, t = pre ++ CCount sub :: rest -> idle_cnt n sub pre).
+Definition answers_in_order (t : list input) : Prop := answers_in_order_ev t /\ answers_in_order_cnt t.
+
+(** the same as a boolean scan (used by the Example in Properties/C09.v) *)
+Fixpoint in_orderb (pre t : list input) : bool :=
+  match t with
+  | [] => true
+  | x :: t' =>
+      match x with
+      | Child i (SOk m) =>
+          Nat.ltb (length (ok_replies_of (ok_id m) i pre)) (count_occ_b (is_cevent_of (ok_id m)) pre)
+      | Child i (SCount m) =>
+          Nat.ltb (length (cnt_replies_of (c_sub m) i pre)) (count_occ_b (is_ccount_of (c_sub m)) pre)
+      | _ => true
+      end && in_orderb (pre ++ [x]) t'
+  end.
 
 (* ------------------------------------------------------------------ *)
 (** * Oracles: the property texts as boolean judgements of an observed trace.
@@ -810,41 +908,3 @@ Fixpoint c09_scan (n : nat) (t : otrace) (pe : pending okm) (pc : pending cntm) 
   end.
 
 Definition c09_oracle (n : nat) (t : otrace) : bool := c09_scan n t [] [].
-
-(** ** The discipline under which the C09 oracle is sound for this code
-
-    The oracle attributes a child's reply to the oldest submission of that id
-    the child has not answered yet (FIFO); the code keeps ONE slot vector per
-    id.  The two coincide on the histories in which
-    - a request (EVENT id / COUNT subscription id) is submitted only while no
-      request of the same kind with the same id is in flight, and
-    - a child answers a request in flight at most once
-    (replies for an id nobody waits for are allowed: both drop them).
-    [flight]: the requests in flight with the replies received so far. *)
-Definition flight (A : Type) := list (str * list (nat * A)).
-
-(** a reply of child [i] under key [k]; [None] = the discipline is broken *)
-Definition disc_reply {A} (n i : nat) (k : str) (a : A) (fl : flight A) : option (flight A) :=
-  match assoc k fl with
-  | None => Some fl
-  | Some rs =>
-      if has_child i rs then None
-      else if complete n ((i, a) :: rs) then Some (m_del k fl)
-      else Some (m_set k ((i, a) :: rs) fl)
-  end.
-
-Fixpoint c09_disc (n : nat) (t : list input) (fe : flight okm) (fc : flight cntm) : bool :=
-  match t with
-  | [] => true
-  | CEvent id :: t' =>
-      match assoc id fe with Some _ => false | None => c09_disc n t' (m_set id [] fe) fc end
-  | CCount sub :: t' =>
-      match assoc sub fc with Some _ => false | None => c09_disc n t' fe (m_set sub [] fc) end
-  | Child i (SOk m) :: t' =>
-      match disc_reply n i (ok_id m) m fe with None => false | Some fe' => c09_disc n t' fe' fc end
-  | Child i (SCount m) :: t' =>
-      match disc_reply n i (c_sub m) m fc with None => false | Some fc' => c09_disc n t' fe fc' end
-  | _ :: t' => c09_disc n t' fe fc
-  end.
-
-Definition c09_disciplined (n : nat) (t : list input) : Prop := c09_disc n t [] [] = true.
